@@ -36,7 +36,7 @@ TEXT = {
   level_note='Trusts the harness FAT checker (Microsoft FAT specification layout).'),
  'C02': dict(
   design_ref='DESIGN.md §4 C02',
-  technique='property-based testing: generated GPT/MBR tables (sparse unordered indices, 3 spellings, UTF-16 names, >2 TiB sparse disks, rewrites) round-tripped through gpt/mbr/partition.Read and Disk.GetPartition, and cross-checked by an independent GPT/MBR parser (CRCs, backup mirror, protective MBR)',
+  technique='property-based testing: generated GPT/MBR tables (sparse unordered indices, 3 spellings, UTF-16 names, >2 TiB sparse disks, rewrites) round-tripped through gpt/mbr/partition.Read and Disk.GetPartition (also as a read-modify-write on one Table object), and cross-checked by an independent GPT/MBR parser (CRCs, backup mirror, protective MBR)',
   level_text='Generated search with two oracles: field-by-field round trip and an independent on-disk validity parser that shares no code with the library. Exploration over a very large table space; sampled, not exhaustive.',
   level_note='Trusts the harness GPT/MBR parser (UEFI layout, hash/crc32) and the spec-derived normalisation (End = Start + Size/LSS - 1).'),
  'C09': dict(
@@ -56,7 +56,7 @@ TEXT = {
   level_note='Trusts the harness device; stale content is produced by the library itself.'),
  'C13': dict(
   design_ref='DESIGN.md §4 C13',
-  technique='property-based testing: generated GPT/MBR geometries (near start, straddling and beyond 4 GiB on a sparse device, physical != logical sectors) x readers of shorter/equal/longer length delivering odd pieces, (0,nil) and (n,EOF); oracle = device write log range check + byte comparison + error-type rules; thorough streams a >4 GiB partition against a synthetic verifying pattern region',
+  technique='property-based testing: generated GPT/MBR geometries (near start, straddling and beyond 4 GiB on a sparse device, physical != logical sectors) x readers of shorter/equal/longer length delivering odd pieces, (0,nil) and (n,EOF), through a table read back from disk and through the table object of the caller as Disk.Partition keeps it; oracle = device write log range check + byte comparison + error-type rules; thorough streams a >4 GiB partition against a synthetic verifying pattern region',
   level_text='Generated search over geometry x reader behaviour with an explicit containment and content oracle on the instrumented device. Exploration (sampled).',
   level_note='Trusts the harness device (range guard, hashes) and the stated success rule (success iff exactly size bytes supplied).'),
  'C17': dict(
@@ -71,22 +71,22 @@ TEXT = {
   level_note='Trusts SHA-256 comparison of the instrumented device; the second pass is one batch per shard.'),
  'C19': dict(
   design_ref='DESIGN.md §4 C19',
-  technique='property-based testing: generated ext4 histories rich in Chmod/Chown/Chtimes/Symlink with a per-call frame check, FAT histories with Chtimes and attribute setters verified on raw directory entries after reopen, and workspace trees with modes/owners/mtimes/symlinks finalized to squashfs and Rock Ridge ISO; oracle = model of the set values at the format resolution + nothing else changes + kinds never confused',
+  technique='property-based testing: generated ext4 histories rich in Chmod/Chown/Chtimes/Symlink with a per-call frame check, FAT histories with Chtimes and attribute setters verified on raw directory entries after reopen, and workspace trees with modes/owners/mtimes/symlinks (incl. link targets of kilobytes) finalized to squashfs and Rock Ridge ISO, read back through the library and through independent squashfs / Rock Ridge parsers; oracle = model of the set values at the format resolution + nothing else changes + kinds never confused',
   level_text='Generated histories/trees with a model oracle and a frame-condition invariant. Exploration.',
   level_note='Trusts the harness model of each format\'s resolution (FAT 2 s / date-only access time, squashfs 1 s) and the independent FAT entry parser.'),
  'C20': dict(
   design_ref='DESIGN.md §4 C20',
-  technique='differential property-based testing against the reference implementation: generated host trees (sparse files, many entries, symlinks, owners, xattrs) populated by mke2fs -d / debugfs under generated feature sets, re-hashed with e2fsck -fyD and fragmented with debugfs, then read through ext4.Read and compared with what was put in (debugfs as arbiter); a hang or wrong data is a violation, refusal or a per-node error is not',
+  technique='differential property-based testing against the reference implementation: generated host trees (sparse files, many entries, symlinks, owners, xattrs) populated by mke2fs -d / debugfs under generated feature sets (incl. two-level hash trees packed by e2fsck -fyD), re-hashed and fragmented with debugfs, then read through ext4.Read - sparse files also through a reused dirty buffer and after seeking back on the same handle - and compared with what was put in (debugfs as arbiter); a hang or wrong data is a violation, refusal or a per-node error is not',
   level_text='Generated images from an independent implementation; oracle = source tree / debugfs view, watchdog for termination. Exploration.',
   level_note='Trusts e2fsprogs 1.47.0 as installed in the sandbox.'),
  'C16': dict(
   design_ref='DESIGN.md §4 C16',
-  technique='property-based testing: generated trees copied between generated source/destination filesystem pairings and read back through the destination reader; CompareFS run on pairs of materialisations that are equal or differ by one generated mutation, in both argument orders; the reference diff is computed by the harness on the models',
+  technique='property-based testing: generated trees copied between generated source/destination filesystem pairings and read back through the destination reader; CompareFS run on pairs of materialisations that are equal or differ by one generated mutation (with excluded-name files and directories present on either side), in both argument orders; the reference diff is computed by the harness on the models',
   level_text='Generated search with a model oracle for copy and a single-mutation metamorphic oracle for compare. Exploration.',
   level_note='Trusts the harness tree diff and the separately checked readers of each filesystem type.'),
  'C15': dict(
   design_ref='DESIGN.md §4 C15',
-  technique='fault enumeration: every GPT header field x boundary values x CRC recomputed/stale x primary/backup/both, 2-field size combinations, entry and MBR-slot corruptions, truncations, plus random images; oracle = no panic, watchdog, heap-allocation bound, returned tables only from CRC-valid data (independent parser); thorough adds a native go fuzz campaign',
+  technique='fault enumeration: every GPT header field x boundary values x CRC recomputed/stale x primary/backup/both, the array-describing fields with both checksums recomputed (and decodable bytes planted behind a shortened array), 2-field size combinations, entry and MBR-slot corruptions, truncations, plus random images; oracle = no panic, watchdog, heap-allocation bound, returned tables only from CRC-valid data (independent parser); thorough adds a native go fuzz campaign',
   level_text='Finite fault families enumerated on each generated valid base image (quick: every 4th member with a seeded phase; thorough: all), run in memory-capped child processes with a per-case journal so a dying child still yields a replay.',
   level_note='Trusts the harness CRC recomputation and independent parser; allocation is measured with runtime/metrics.'),
  'C18': dict(
@@ -96,7 +96,7 @@ TEXT = {
   level_note='Single-word faults without checksum repair; the bases are small fixed trees (nested directories, fragmented files, an empty file, a long name, a symlink), not generated ones. Trusts the instrumented device read log to name what the reader consumes.'),
  'C10': dict(
   design_ref='DESIGN.md §4 C10',
-  technique='property-based testing: rapid-generated Read/Seek/Close sequences against a bytes.Reader-equivalent position model on files of known content, 13 filesystem variants',
+  technique='property-based testing: rapid-generated Read/Seek/Close sequences against a bytes.Reader-equivalent position model on files of known content, 14 filesystem variants (incl. a sparse file inside an image made by mke2fs), each also at a non-zero start offset inside a larger device, read buffers pre-filled with a marker byte',
   level_text='Generated search (rapid, 16 seeded shards) over call sequences x boundary-biased file sizes x filesystem variants, compared step by step with an executable bytes.Reader-style model; shrunk failures become JSON replays. Exploration, not proof: it samples the sequence space.',
   level_note='Trusts the harness model of io.Reader/io.Seeker and that the file content reached the image intact (a wrong writer is reported as a byte mismatch as well).'),
 }
